@@ -12,11 +12,11 @@ def hmac (H : Bytes → Bytes) (B : Nat) (key msg : Bytes) : Bytes :=
 /-- HMAC-MD5-96 / HMAC-SHA-96: the first 12 octets -/
 def hmac96 (H : Bytes → Bytes) (key msg : Bytes) : Bytes := (hmac H 64 key msg).take 12
 
-/-- RFC 3414 A.2.1 / A.2.2 password to key: digest of the first 2^20 octets of the repeated password -/
-def cycleTake (pw : Bytes) : Nat → Bytes
-  | 0 => []
-  | n + 1 => cycleTake pw n ++ [pw.getD (n % pw.length) 0]
+/-- the first `n` octets of the endlessly repeated password -/
+def cycleTake (pw : Bytes) (n : Nat) : Bytes :=
+  ((List.replicate (n / pw.length + 1) pw).flatten).take n
 
+/-- RFC 3414 A.2.1 / A.2.2 password to key: digest of the first 2^20 octets of the repeated password -/
 def passwordToKey (H : Bytes → Bytes) (pw : Bytes) : Bytes := H (cycleTake pw 1048576)
 
 /-- RFC 3414 A.2: key localisation -/
